@@ -50,7 +50,7 @@ func readSweep(r *RunCtx, seg segment.Segment, cn *Canon, ops []rop, want []stri
 
 func refHistories(r *RunCtx) {
 	c := r.ch
-	w := newWorld(r, c.Choose(3, "cfg.syn") == 0, false)
+	w := newWorldBadSyn(r, c.Choose(3, "cfg.syn") == 0)
 	defer w.CloseAll()
 	spec := genBatch(c, w.Cfg, 1+c.Choose(20, "ref.ndocs"), w.Cfg.IDSpace)
 	mem := w.Build(spec, nil)
